@@ -604,7 +604,16 @@ func TestVerifC04(t *testing.T) {
 	}
 	const aud = "verif-aud"
 	now := time.Now()
+	hostname, _ := os.Hostname()
 	creds := vc04MakeCreds(t, keys, attacker, aud, now)
+	{ // a token for the default audience (host name) of engine E
+		for _, c := range vc04MakeCreds(t, keys, attacker, hostname, now) {
+			if c.kind == "valid0" {
+				c.kind = "valid-aud-hostname"
+				creds = append(creds, c)
+			}
+		}
+	}
 	credByKind := map[string]vc04Cred{}
 	for _, c := range creds {
 		credByKind[c.kind] = c
@@ -617,6 +626,7 @@ func TestVerifC04(t *testing.T) {
 		"B": vc04StartEngine(t, "B", true, true, keysFile, aud, vc04Routes),   // one shared listener, token auth
 		"C": vc04StartEngine(t, "C", false, false, keysFile, aud, vc04Routes), // two listeners, no auth
 		"D": vc04StartEngine(t, "D", false, true, keysFile, aud, rndRoutes),   // two listeners, token auth, random route table
+		"E": vc04StartEngine(t, "E", false, true, keysFile, "", vc04Routes),    // token auth, NO audience configured: the host name is enforced
 	}
 	defer func() {
 		for _, e := range engines {
@@ -645,10 +655,12 @@ func TestVerifC04(t *testing.T) {
 		Pub  string `json:"pub"`
 		Auth bool   `json:"auth"`
 		RS   string `json:"rs"`
+		Aud  string `json:"aud"`
 	}
 	cfg := map[string]interface{}{"op": "cfg", "routesets": map[string][]vc04Route{"std": vc04Routes, "rnd": rndRoutes},
 		"keys": []string{keys[0].comment, keys[1].comment}, "aud": aud, "now": now.Unix(),
-		"engines": map[string]engCfg{"A": {"i", "p", true, "std"}, "B": {"s", "s", true, "std"}, "C": {"i", "p", false, "std"}, "D": {"i", "p", true, "rnd"}}}
+		"engines": map[string]engCfg{"A": {"i", "p", true, "std", aud}, "B": {"s", "s", true, "std", aud}, "C": {"i", "p", false, "std", aud},
+			"D": {"i", "p", true, "rnd", aud}, "E": {"i", "p", true, "std", hostname}}}
 	emit(cfg, "cfg")
 
 	run := func(op vc04Op) string {
@@ -674,6 +686,25 @@ func TestVerifC04(t *testing.T) {
 				ran = strconv.Itoa(vc04Seen.ran)
 			}
 			return fmt.Sprintf("%d ran=%s %s", code, ran, vc04Seen.user)
+		case "configure":
+			e := New(func() {}, nil)
+			cfg := DefaultConfig()
+			cfg.Internal.Address, cfg.Public.Address = "127.0.0.1:1", "127.0.0.1:2"
+			path := keysFile
+			switch op.B {
+			case "missing":
+				path = filepath.Join(dir, "does-not-exist")
+			case "garbage":
+				path = filepath.Join(dir, "garbage_keys")
+			case "empty":
+				path = filepath.Join(dir, "empty_keys")
+			}
+			cfg.Internal.Auth = AuthConfig{Type: AuthType(op.A), AuthorizedKeysPath: path, Audience: aud}
+			e.config = cfg
+			if err := e.Configure(*core.NewServerConfig()); err != nil {
+				return "error"
+			}
+			return "ok"
 		case "matchesPath":
 			a, _ := hex.DecodeString(op.A)
 			b, _ := hex.DecodeString(op.B)
@@ -696,7 +727,7 @@ func TestVerifC04(t *testing.T) {
 				continue
 			}
 			var op vc04Op
-			if json.Unmarshal([]byte(line), &op) != nil || (op.Op != "req" && op.Op != "matchesPath" && op.Op != "bindOf") {
+			if json.Unmarshal([]byte(line), &op) != nil || (op.Op != "req" && op.Op != "matchesPath" && op.Op != "bindOf" && op.Op != "configure") {
 				continue
 			}
 			if op.Op == "req" { // credentials are regenerated (keys are fresh each run): look the kind up
@@ -723,6 +754,16 @@ func TestVerifC04(t *testing.T) {
 		}
 	}
 
+	// Configure with every auth type spelling x authorized_keys file state: unknown types must be an error, never "no auth"
+	_ = os.WriteFile(filepath.Join(dir, "garbage_keys"), []byte("this is not a key line\n"), 0o600)
+	_ = os.WriteFile(filepath.Join(dir, "empty_keys"), []byte("# no keys\n\n"), 0o600)
+	for _, typ := range []string{"", "token_v2", "token", "Token_v2", "TOKEN_V2", "token_v2 ", " token_v2", "token_v1", "tokenv2", "jwt", "none", "bearer", "off", "false", "0"} {
+		for _, kf := range []string{"ok", "missing", "garbage", "empty"} {
+			op := vc04Op{Op: "configure", A: typ, B: kf}
+			emit(op, run(op))
+		}
+	}
+
 	// matchesPath / getBindFromPath differential
 	for i := 0; i < nReq/5; i++ {
 		a := vc04MutatePath(r, vc04BasePaths[r.Intn(len(vc04BasePaths))]) + vc04Query(r)
@@ -740,7 +781,7 @@ func TestVerifC04(t *testing.T) {
 	}
 
 	methods := []string{"GET", "GET", "GET", "GET", "GET", "POST", "CONNECT", "OPTIONS", "OPTIONS", "OPTIONS", "DELETE", "DELETE", "HEAD", "TRACE", "PROPFIND", "PUT", "PATCH", "BREW"}
-	engNames := []string{"A", "A", "A", "B", "B", "C", "D", "D", "D"}
+	engNames := []string{"A", "A", "A", "B", "B", "C", "D", "D", "D", "E"}
 	for i := 0; i < nReq; i++ {
 		m := methods[r.Intn(len(methods))]
 		en := engNames[r.Intn(len(engNames))]
@@ -750,7 +791,7 @@ func TestVerifC04(t *testing.T) {
 		}
 		target := vc04Target(r, m, bases)
 		c := creds[0]
-		if r.Intn(3) == 0 {
+		if r.Intn(3) == 0 || (en == "E" && r.Intn(2) == 0) {
 			c = creds[r.Intn(len(creds))]
 		}
 		tk := c.tok
